@@ -21,7 +21,7 @@ PROPS = {
                 dict(module="MC_Feistel", tier="thorough", timeout=1200, about="same with 4 rounds: 16.8M states"),
                 dict(module="MC_Feistel", cfg="MC_Feistel_neg", expect="violation", about="negative: decryption with round keys in the same order must be refuted")],
         stages=[dict(suite="sm4blk", trace="TraceSM4", plan=dict(module="PlanSM4", cfg_quick="PlanSM4_q", cfg_thorough="PlanSM4_t"),
-                     required_classes={"both": ["sm4.new/keyschedule", "sm4.enc/sm4.enc.fresh", "sm4.dec/sm4.dec.prev", "sm4.enc/sm4.enc.repeat", "sm4.dec/sm4.dec.fresh", "sm4.enc/sm4.enc.crafted", "sm4.dec/sm4.dec.crafted"]})],
+                     required_classes={"both": ["sm4.enc/sm4.enc.badlen", "sm4.dec/sm4.dec.badlen", "sm4.enc/sm4.enc.fresh", "sm4.dec/sm4.dec.prev", "sm4.enc/sm4.enc.repeat", "sm4.dec/sm4.dec.fresh", "sm4.enc/sm4.enc.crafted", "sm4.dec/sm4.dec.crafted"]})],
         assumptions=["SM4.tla transcribes GB/T 32907 (S-box defined algebraically and ASSUMEd equal to the table; standard example as ASSUME)"],
     ),
     "C07": dict(
